@@ -12,7 +12,7 @@ Model of the request encoder of `scylla-cql` (C09).
                                (`batch.rs:63-159`) + `serialize_batch_statement` (`batch.rs:195-213`), `Startup`
                                (`startup.rs:27-31`), `RegisterV2` (`register.rs:45-56`), `AuthResponse`
                                (`auth_response.rs:21-25`), `Options` (`options.rs:14-16`).
-* `compressAppend`, `decompress` ← `frame/mod.rs:273-323` with the LZ4 / Snappy block codecs as parameters.
+* `compressAppend`, `decompress` ← `frame/mod.rs:273-297, 301-348` with the LZ4 / Snappy block codecs as parameters.
 * `encodeReq`               ← `SerializedRequest::make` (`frame/mod.rs:70-99`).
 
 All opcodes, flag bits and codes come from `Generated/Constants.lean` (re-extracted from the Rust source on every
@@ -364,7 +364,8 @@ def encodeBody : Req → Except Err Bytes
     | some b => .ok b
     | none => .error .authResponse
 
-/-! ### compression (`frame/mod.rs:273-323`); the block codecs are parameters -/
+/-! ### compression (`frame/mod.rs:273-297` `compress_append`, `301-348` `decompress` incl. the LZ4 guard at 318-325
+and the Snappy guard at 333-342); the block codecs are parameters -/
 
 inductive Compression where
   | lz4 | snappy
@@ -389,20 +390,45 @@ def compressAppend (k : Codec) (c : Compression) (body : Bytes) : Except Err Byt
     | some b => .ok b
     | none => .error .snapCompress
 
-/-- `decompress` (`frame/mod.rs:301-345`), including the size guards in front of the allocating decoders: an LZ4 body
+/-- Why `frame::decompress` refuses a body. -/
+inductive DecErr where
+  | prefix   -- LZ4 body shorter than its 4-byte size prefix
+  | guard    -- declared uncompressed size impossible for the compressed size (checked before anything is allocated)
+  | header   -- Snappy: `decompress_len` cannot read the preamble
+  | codec    -- the block decoder fails
+  deriving Repr, DecidableEq
+
+/-- `decompress` (`frame/mod.rs:301-348`), including the size guards in front of the allocating decoders: an LZ4 body
 whose declared size exceeds `comp_body.len() * 255 + 64`, or a Snappy body whose declared size exceeds
-`comp_body.len() * 64 + 64`, is rejected before decoding.  (`usize::saturating_mul/add` never saturate for buffers
-that fit a 64-bit address space, so plain `Nat` arithmetic is exact.) -/
-def decompress (k : Codec) (c : Compression) (comp : Bytes) : Option Bytes :=
+`comp_body.len() * 64 + 64`, is rejected before decoding (the four constants are re-extracted from the source:
+`Generated.decompressGuard_*`).  `usize::saturating_mul/add` never saturate for buffers that fit a 64-bit address space,
+so plain `Nat` arithmetic is exact. -/
+def decompressE (k : Codec) (c : Compression) (comp : Bytes) : Except DecErr Bytes :=
   match c with
   | .lz4 =>
     match ReqParse.rdU32 comp with
-    | some (n, rest) => if n > rest.length * 255 + 64 then none else k.unlz4 rest n
-    | none => none
+    | none => .error .prefix
+    | some (n, rest) =>
+      if n > rest.length * Generated.decompressGuard_lz4_mul + Generated.decompressGuard_lz4_add then .error .guard
+      else
+        match k.unlz4 rest n with
+        | some b => .ok b
+        | none => .error .codec
   | .snappy =>
     match k.snappyLen comp with
-    | none => none
-    | some n => if n > comp.length * 64 + 64 then none else k.unsnappy comp
+    | none => .error .header
+    | some n =>
+      if n > comp.length * Generated.decompressGuard_snappy_mul + Generated.decompressGuard_snappy_add then .error .guard
+      else
+        match k.unsnappy comp with
+        | some b => .ok b
+        | none => .error .codec
+
+/-- `decompress(..).ok()`. -/
+def decompress (k : Codec) (c : Compression) (comp : Bytes) : Option Bytes :=
+  match decompressE k c comp with
+  | .ok b => some b
+  | .error _ => none
 
 /-! ### the frame (`SerializedRequest::make`) -/
 
